@@ -123,38 +123,43 @@ def rule_precedence(ctx, r):
     dflt = [k.value for k in opt.keywords if k.arg == "default"] if opt else ["?"]
     r.check(opt is not None and (not dflt or (isinstance(dflt[0], ast.Constant) and dflt[0].value is None)), con + "::--backend", "flag absent = None",
             "--backend has a default value: the project configuration can never take effect", main.where)
-    chain_ok = guess_ok = False
-    for n in walk_no_nested(main.node):
-        if isinstance(n, ast.Assign) and dotted(n.targets[0]) == "backend":
-            t = ast.unparse(n.value).replace('"', "'")
-            if t in ("backend or config.get('backend')", "backend if backend is not None else config.get('backend')"):
-                chain_ok = True
-        if isinstance(n, ast.If) and ast.unparse(n.test) == "backend is None" and any("guess_backend()" in ast.unparse(s) for s in n.body):
-            guess_ok = True
-    r.check(chain_ok and guess_ok, con + "::backend-precedence", "backend = flag, else config 'backend', else guessed",
-            "the backend is not chosen as command-line flag, else project configuration, else guess", main.where)
-    used = "backend=backend" in ast.unparse(main.node)
-    r.check(used, con + "::backend-used", "the chosen backend is what the commands get", "the Context does not carry the chosen backend", main.where)
     # colour
     opt = _option(idx, main, "--no-color")
     dflt = [k.value for k in opt.keywords if k.arg == "default"] if opt else []
     r.check(opt is not None and dflt and isinstance(dflt[0], ast.Constant) and dflt[0].value is None, con + "::--no-color", "tri-state flag: absent = None",
             "--no-color/--use-color does not default to None: 'flag absent' cannot be told from an explicit --use-color", main.where)
-    tri = None
-    for n in walk_no_nested(main.node):
-        if isinstance(n, ast.If) and "no_color" in ast.unparse(n.test) and any("config" in ast.unparse(s) for s in n.body):
-            tri = n
-            break
-    if tri is None:
-        r.violation(con + "::no_color-precedence", "the colour setting never consults the project configuration", main.where)
-    else:
-        t = ast.unparse(tri.test)
-        r.check(t == "no_color is None", con + "::no_color-precedence", "config/env are consulted only when the flag is absent (is None)",
-                f"the colour flag is tested with `{t}`: an explicit --use-color (False) is treated like an absent flag, so configuration or NO_COLOR override the command line",
-                loc(tri, main.module))
-        inner = ast.unparse(tri)
-        r.check("config.get('no_color') is None" in inner and "config['no_color']" in inner and "NO_COLOR" in inner, con + "::no_color-sources",
-                "flag > config no_color > NO_COLOR environment default", "the colour default chain is not `config no_color, else NO_COLOR`", loc(tri, main.module))
+
+    def structural(_ctx, rr):
+        chain_ok = guess_ok = False
+        for n in walk_no_nested(main.node):
+            if isinstance(n, ast.Assign) and dotted(n.targets[0]) == "backend":
+                t = ast.unparse(n.value).replace('"', "'")
+                if t in ("backend or config.get('backend')", "backend if backend is not None else config.get('backend')"):
+                    chain_ok = True
+            if isinstance(n, ast.If) and ast.unparse(n.test) == "backend is None" and any("guess_backend()" in ast.unparse(s) for s in n.body):
+                guess_ok = True
+        rr.check(chain_ok and guess_ok, con + "::backend-precedence", "backend = flag, else config 'backend', else guessed",
+                "the backend is not chosen as command-line flag, else project configuration, else guess", main.where)
+        used = "backend=backend" in ast.unparse(main.node)
+        rr.check(used, con + "::backend-used", "the chosen backend is what the commands get", "the Context does not carry the chosen backend", main.where)
+        tri = None
+        for n in walk_no_nested(main.node):
+            if isinstance(n, ast.If) and "no_color" in ast.unparse(n.test) and any("config" in ast.unparse(s) for s in n.body):
+                tri = n
+                break
+        if tri is None:
+            rr.violation(con + "::no_color-precedence", "the colour setting never consults the project configuration", main.where)
+        else:
+            t = ast.unparse(tri.test)
+            rr.check(t == "no_color is None", con + "::no_color-precedence", "config/env are consulted only when the flag is absent (is None)",
+                    f"the colour flag is tested with `{t}`: an explicit --use-color (False) is treated like an absent flag, so configuration or NO_COLOR override the command line",
+                    loc(tri, main.module))
+            inner = ast.unparse(tri)
+            rr.check("config.get('no_color') is None" in inner and "config['no_color']" in inner and "NO_COLOR" in inner, con + "::no_color-sources",
+                    "flag > config no_color > NO_COLOR environment default", "the colour default chain is not `config no_color, else NO_COLOR`", loc(tri, main.module))
+
+    from .evalhelpers import cli_main_precedence_witness
+    ctx.structural_or_witness(r, structural, lambda: cli_main_precedence_witness(ctx), con, both=True)
     # verbosity (D12)
     opt = _option(idx, main, "--verbose")
     dflt = [k.value for k in opt.keywords if k.arg == "default"] if opt else []
@@ -180,17 +185,22 @@ def rule_precedence(ctx, r):
 def rule_backend_namespace(ctx, r):
     idx = ctx.index
     cb = idx.func("gwf.backends.base:create_backend")
-    t = ast.unparse(cb.node).replace('"', "'")
-    ok = "config.get_namespace(f'backend.{name}')" in t and "working_dir=working_dir, **backend_args" in t.replace(" ", "").replace(",", ", ").replace("=", "=")
-    ns_ok = any(isinstance(n, ast.Assign) and isinstance(n.value, ast.Call) and isinstance(n.value.func, ast.Attribute) and n.value.func.attr == "get_namespace"
-                and isinstance(n.value.args[0], ast.JoinedStr) and ast.unparse(n.value.args[0]).replace('"', "'") == "f'backend.{name}'" for n in walk_no_nested(cb.node))
-    var = next((n.targets[0].id for n in walk_no_nested(cb.node) if isinstance(n, ast.Assign) and isinstance(n.value, ast.Call) and isinstance(n.value.func, ast.Attribute)
-                and n.value.func.attr == "get_namespace"), None)
-    star = any(isinstance(c, ast.Call) and any(k.arg is None and dotted(k.value) == var for k in c.keywords) and any(k.arg == "working_dir" for k in c.keywords)
-               for c in _calls(cb.node))
-    sel = any(isinstance(n, ast.Subscript) and "discover_backends()" in ast.unparse(n.value) and dotted(n.slice) == "name" for n in ast.walk(cb.node))
-    r.check(ns_ok and star and sel, f"{cb.module.relpath}::{cb.qual}", "backend_cls(working_dir=..., **config.get_namespace(f'backend.{name}')) for the selected backend",
-            "the selected backend is not constructed with exactly its own `backend.<name>.*` settings as keyword arguments", cb.where)
+
+    def structural(_ctx, rr):
+        t = ast.unparse(cb.node).replace('"', "'")
+        ok = "config.get_namespace(f'backend.{name}')" in t and "working_dir=working_dir, **backend_args" in t.replace(" ", "").replace(",", ", ").replace("=", "=")
+        ns_ok = any(isinstance(n, ast.Assign) and isinstance(n.value, ast.Call) and isinstance(n.value.func, ast.Attribute) and n.value.func.attr == "get_namespace"
+                    and isinstance(n.value.args[0], ast.JoinedStr) and ast.unparse(n.value.args[0]).replace('"', "'") == "f'backend.{name}'" for n in walk_no_nested(cb.node))
+        var = next((n.targets[0].id for n in walk_no_nested(cb.node) if isinstance(n, ast.Assign) and isinstance(n.value, ast.Call) and isinstance(n.value.func, ast.Attribute)
+                    and n.value.func.attr == "get_namespace"), None)
+        star = any(isinstance(c, ast.Call) and any(k.arg is None and dotted(k.value) == var for k in c.keywords) and any(k.arg == "working_dir" for k in c.keywords)
+                   for c in _calls(cb.node))
+        sel = any(isinstance(n, ast.Subscript) and "discover_backends()" in ast.unparse(n.value) and dotted(n.slice) == "name" for n in ast.walk(cb.node))
+        rr.check(ns_ok and star and sel, f"{cb.module.relpath}::{cb.qual}", "backend_cls(working_dir=..., **config.get_namespace(f'backend.{name}')) for the selected backend",
+                "the selected backend is not constructed with exactly its own `backend.<name>.*` settings as keyword arguments", cb.where)
+
+    from .evalhelpers import create_backend_witness
+    ctx.structural_or_witness(r, structural, lambda: create_backend_witness(ctx), f"{cb.module.relpath}::{cb.qual}", both=True)
     # factories: parameters flow to the Ops fields in order
     for mod, cname, params in (("gwf.backends.slurm", "SlurmOps", ["working_dir", "log_mode", "accounting_enabled"]),
                                ("gwf.backends.local", "LocalOps", ["working_dir", "host", "port"])):
@@ -236,7 +246,7 @@ def run(ctx):
     rule_accessors(ctx, r1)
     r2 = ctx.rule("R2", "the config sub-commands read, write and save through FileConfig", min_instances=3)
     rule_cli_commands(ctx, r2)
-    r3 = ctx.rule("R3", "precedence flag > project configuration > default for backend, colour and verbosity; every documented setting is read", min_instances=8)
+    r3 = ctx.rule("R3", "precedence flag > project configuration > default for backend, colour and verbosity; every documented setting is read", min_instances=6)
     rule_precedence(ctx, r3)
     r4 = ctx.rule("R4", "the selected backend, and only it, receives its backend.<name>.* settings and uses them", min_instances=8)
     rule_backend_namespace(ctx, r4)
